@@ -4,7 +4,9 @@ package main
 // outcome vector is loaded through the REAL rule-set parser, rule-set processor, rule factory (real CEL conditions,
 // real error handlers), repository and rule executor, and one request is sent through each of the three REAL
 // entry points (decision service, proxy service with a counting upstream test server, Envoy ext_authz gRPC
-// service), all listening on loopback ports handed out by the kernel.
+// service), all listening on loopback ports handed out by the kernel. The error handlers are the real ones and their
+// configuration may read the request (`to` templates over the header X-C01-To, the query parameter `to`, URL parts;
+// `if` conditions on them); the case says what the client sends.
 
 import (
 	"context"
@@ -15,6 +17,7 @@ import (
 	"net"
 	"net/http"
 	"net/http/httptest"
+	"net/url"
 	"strings"
 	"sync"
 	"sync/atomic"
@@ -54,6 +57,11 @@ type c01Cond struct {
 	Sub *string `json:"sub"`
 	Err *string `json:"err"`
 	Bad bool    `json:"bad"`
+	// for `lit` conditions: the request attribute the expression looks at ("" = none: a literal or the method;
+	// hdr | q | rawq | path; `neg`: the negated question). The truth value `lit` is what the expression has for
+	// the request of the case.
+	On  string `json:"on"`
+	Neg bool   `json:"neg"`
 }
 
 type c01Step struct {
@@ -73,6 +81,18 @@ type c01EH struct {
 	Kind   string   `json:"kind"` // default | redirect | www
 	Render bool     `json:"render"`
 	Code   int      `json:"code"`
+	// redirect: which `to` template (see c01ToTemplates; "" = static when render, failing otherwise)
+	To string `json:"to"`
+	// www_authenticate: realm of the catalogue entry (nil = "c01") and of the rule-level `config` (nil = none)
+	Realm     *string `json:"realm"`
+	RuleRealm *string `json:"rrealm"`
+}
+
+// c01Req is the client-controlled request data the `to` templates and the request-dependent `if` conditions read:
+// the value of the header X-C01-To and of the query parameter `to` (nil = absent).
+type c01Req struct {
+	Hdr *string `json:"hdr"`
+	Q   *string `json:"q"`
 }
 
 type c01Rule struct {
@@ -106,6 +126,7 @@ type c01Case struct {
 	Style    int      `json:"style"`
 	// value of the request's Accept header (nil = no header)
 	Accept *string `json:"accept"`
+	Req    c01Req  `json:"req"`
 }
 
 // ---------------------------------------------------------------------------------------------------------------
@@ -321,34 +342,82 @@ func (f *c01Factory) CreateFinalizer(_, id string, _ config.MechanismConfig) (fi
 	return &c01Fin{c01Handler{s: f.s, spec: st}}, nil
 }
 
-func (f *c01Factory) CreateErrorHandler(_, id string, _ config.MechanismConfig) (errorhandlers.ErrorHandler, error) {
+// c01ToTemplates: the `to` templates of the redirect error handler. Besides the static ones they read what the client
+// controls — a request header, a query parameter, parts of the URL — so that, depending on the request, they render
+// to a URL, to nothing, to blanks, to several lines, or fail (templates that demand a value).
+var c01ToTemplates = map[string]string{ //nolint:gochecknoglobals
+	"static": "http://127.0.0.1:1/login?origin={{ .Request.URL | urlenc }}",
+	// rendering fails at run time for every request (the template itself parses)
+	"fail":   `http://127.0.0.1:1/{{ fail "scripted render failure" }}`,
+	"hdr":    `{{ .Request.Header "X-C01-To" }}`,
+	"q":      `{{ .Request.URL.Query.Get "to" }}`,
+	"path":   `{{ .Request.URL.Path }}`,
+	"rawq":   `{{ .Request.URL.RawQuery }}`,
+	"ml-hdr": "\n  {{ .Request.Header \"X-C01-To\" }}\n",
+	"ml-q":   "{{- /* login page */ -}}\n{{ .Request.URL.Query.Get \"to\" }}\n\n",
+	"sel": `{{ if .Request.Header "X-C01-To" }}{{ .Request.Header "X-C01-To" }}{{ else }}` +
+		`{{ .Request.URL.Query.Get "to" }}{{ end }}`,
+	// rendering fails iff the query parameter is absent or empty / absent or blank
+	"need-q":      `{{ $v := .Request.URL.Query.Get "to" }}{{ if not $v }}{{ fail "no login url" }}{{ end }}{{ $v }}`,
+	"need-q-trim": `{{ $v := .Request.URL.Query.Get "to" | trim }}{{ if not $v }}{{ fail "no login url" }}{{ end }}{{ $v }}`,
+}
+
+func (f *c01Factory) CreateErrorHandler(_, id string, conf config.MechanismConfig) (errorhandlers.ErrorHandler, error) {
 	eh, ok := f.s.ehs[id]
 	if !ok {
 		return nil, fmt.Errorf("%w: %s", errC01Unknown, id)
 	}
 
+	var (
+		proto errorhandlers.ErrorHandler
+		err   error
+	)
+
 	switch eh.Kind {
 	case "default":
-		return errorhandlers.CreatePrototype(nil, id, errorhandlers.ErrorHandlerDefault, nil)
+		proto, err = errorhandlers.CreatePrototype(nil, id, errorhandlers.ErrorHandlerDefault, nil)
 	case "www":
-		return errorhandlers.CreatePrototype(nil, id, errorhandlers.ErrorHandlerWWWAuthenticate,
-			map[string]any{"realm": "c01"})
+		realm := "c01"
+		if eh.Realm != nil {
+			realm = *eh.Realm
+		}
+
+		proto, err = errorhandlers.CreatePrototype(nil, id, errorhandlers.ErrorHandlerWWWAuthenticate,
+			map[string]any{"realm": realm})
 	case "redirect":
-		to := "http://127.0.0.1:1/login?origin={{ .Request.URL | urlenc }}"
-		if !eh.Render {
-			// rendering fails at run time (template itself parses)
-			to = `http://127.0.0.1:1/{{ fail "scripted render failure" }}`
+		name := eh.To
+		if name == "" {
+			name = "static"
+			if !eh.Render {
+				name = "fail"
+			}
 		}
 
-		conf := map[string]any{"to": to}
+		to, known := c01ToTemplates[name]
+		if !known {
+			return nil, fmt.Errorf("%w: to template %s", errC01Unknown, name)
+		}
+
+		rc := map[string]any{"to": to}
 		if eh.Code != 0 {
-			conf["code"] = eh.Code
+			rc["code"] = eh.Code
 		}
 
-		return errorhandlers.CreatePrototype(nil, id, errorhandlers.ErrorHandlerRedirect, conf)
+		proto, err = errorhandlers.CreatePrototype(nil, id, errorhandlers.ErrorHandlerRedirect, rc)
+	default:
+		return nil, fmt.Errorf("%w: kind %s", errC01Unknown, eh.Kind)
 	}
 
-	return nil, fmt.Errorf("%w: kind %s", errC01Unknown, eh.Kind)
+	if err != nil {
+		return nil, err
+	}
+
+	// like mechanismsFactory.CreateErrorHandler: a rule-level `config` reconfigures the prototype
+	if conf != nil {
+		return proto.WithConfig(conf)
+	}
+
+	return proto, nil
 }
 
 // ---------------------------------------------------------------------------------------------------------------
@@ -358,6 +427,28 @@ func c01CondExpr(c *c01Cond, style int) (string, bool) {
 	switch {
 	case c == nil:
 		return "", false
+	case c.Lit != nil && c.On != "":
+		// an expression over what the client sent; the case says which truth value it has for its request
+		var expr string
+
+		switch c.On {
+		case "hdr":
+			expr = `Request.Header("X-C01-To").startsWith("http")`
+		case "q":
+			expr = `Request.URL.Query().exists(k, k == "to" && Request.URL.Query()[k].exists(v, v.startsWith("http")))`
+		case "rawq":
+			expr = `Request.URL.RawQuery != ""`
+		case "path":
+			expr = `Request.URL.Path.startsWith("/c01/")`
+		default:
+			panic("harness: unknown request attribute " + c.On)
+		}
+
+		if c.Neg {
+			return "!(" + expr + ")", true
+		}
+
+		return expr, true
 	case c.Lit != nil:
 		if style%2 == 0 {
 			return fmt.Sprintf("%v", *c.Lit), true
@@ -416,6 +507,10 @@ func c01Pipeline(r *c01Rule, style int) ([]map[string]any, []map[string]any) {
 		m := map[string]any{"error_handler": e.ID}
 		if expr, ok := c01CondExpr(e.Cond, style); ok {
 			m["if"] = expr
+		}
+
+		if e.Kind == "www" && e.RuleRealm != nil {
+			m["config"] = map[string]any{"realm": *e.RuleRealm}
 		}
 
 		onErr = append(onErr, m)
@@ -488,7 +583,7 @@ var (
 	c01Upstream    *httptest.Server            //nolint:gochecknoglobals
 	c01Hits        atomic.Int64                //nolint:gochecknoglobals
 	c01UpStatus    atomic.Int64                //nolint:gochecknoglobals
-	c01Client      *http.Client                //nolint:gochecknoglobals
+	c01Transport   *http.Transport             //nolint:gochecknoglobals
 	c01ServicesMap = map[c01Cfg]*c01Services{} //nolint:gochecknoglobals
 )
 
@@ -500,10 +595,7 @@ func c01Init() {
 			rw.WriteHeader(int(c01UpStatus.Load()))
 			_, _ = rw.Write([]byte("upstream"))
 		}))
-		c01Client = &http.Client{
-			Timeout:       20 * time.Second,
-			CheckRedirect: func(*http.Request, []*http.Request) error { return http.ErrUseLastResponse },
-		}
+		c01Transport = &http.Transport{MaxIdleConnsPerHost: 8}
 	})
 }
 
@@ -668,11 +760,16 @@ func c01Load(c *c01Case, s *c01Script, mode config.OperationMode) (rule.Executor
 }
 
 func c01Path(c *c01Case) string {
+	p := "/elsewhere/resource"
 	if c.Hit {
-		return "/c01/some/resource"
+		p = "/c01/some/resource"
 	}
 
-	return "/elsewhere/resource"
+	if c.Req.Q != nil {
+		p += "?to=" + url.QueryEscape(*c.Req.Q)
+	}
+
+	return p
 }
 
 func runPipeline(raw map[string]any) (any, error) {
@@ -702,6 +799,9 @@ func runPipeline(raw map[string]any) (any, error) {
 	c01Register(script, c.Rule)
 
 	res := map[string]any{}
+	// what the Location header of the answers looked like: evidence only (keys starting with "_" are not compared)
+	obs := map[string]any{}
+	res["_obs"] = obs
 
 	// --- decision operation mode: decision service and Envoy ext_authz service
 	exec, rejected, err := c01Load(&c, script, config.DecisionMode)
@@ -717,19 +817,22 @@ func runPipeline(raw map[string]any) (any, error) {
 
 		script.takeTrace()
 
-		st, _, errBody, err := c01HTTP(svc.decisionURL+c01Path(&c), c.Accept)
+		da, err := c01HTTP(svc.decisionURL+c01Path(&c), c.Accept, c.Req.Hdr)
 		if err != nil {
 			return nil, err
 		}
 
-		res["decision"] = map[string]any{"status": st, "errbody": errBody, "trace": script.takeTrace()}
+		res["decision"] = map[string]any{"status": da.status, "errbody": da.errBody, "trace": script.takeTrace()}
+		obs["decision"] = c01RenderClass(da.location)
 
-		er, err := c01Envoy(svc, c01Path(&c), c.Accept)
+		er, err := c01Envoy(svc, c01Path(&c), c.Accept, c.Req.Hdr)
 		if err != nil {
 			return nil, err
 		}
 
 		er["trace"] = script.takeTrace()
+		obs["envoy"] = er["_loc"]
+		delete(er, "_loc")
 		res["envoy"] = er
 
 		svc.decSwitch.set(nil)
@@ -751,15 +854,16 @@ func runPipeline(raw map[string]any) (any, error) {
 
 		script.takeTrace()
 
-		st, fromUpstream, errBody, err := c01HTTP(svc.proxyURL+c01Path(&c), c.Accept)
+		pa, err := c01HTTP(svc.proxyURL+c01Path(&c), c.Accept, c.Req.Hdr)
 		if err != nil {
 			return nil, err
 		}
 
 		res["proxy"] = map[string]any{
-			"status": st, "hits": c01Hits.Load() - before, "relayed": fromUpstream, "errbody": errBody,
+			"status": pa.status, "hits": c01Hits.Load() - before, "relayed": pa.relayed, "errbody": pa.errBody,
 			"trace": script.takeTrace(),
 		}
+		obs["proxy"] = c01RenderClass(pa.location)
 
 		svc.prxSwitch.set(nil)
 	}
@@ -767,23 +871,39 @@ func runPipeline(raw map[string]any) (any, error) {
 	return res, nil
 }
 
+type c01HTTPAnswer struct {
+	status   int
+	relayed  bool
+	errBody  bool
+	location *string
+}
+
 // c01HTTP sends the request; errBody = the error translator negotiated a body (it marks such responses with
 // X-Content-Type-Options: nosniff; neither the positive decision response nor the upstream test server does; the
-// header is looked at rather than the bytes because net/http drops the body of 204/304 responses).
-func c01HTTP(url string, accept *string) (int, bool, bool, error) {
-	req, err := http.NewRequestWithContext(context.Background(), http.MethodGet, url, nil)
+// header is looked at rather than the bytes because net/http drops the body of 204/304 responses). The request goes
+// through the transport directly: http.Client would try to parse the Location header of a redirect response (and
+// report an error for an unparsable one) before it asks CheckRedirect.
+func c01HTTP(target string, accept, hdr *string) (c01HTTPAnswer, error) {
+	ctx, cancel := context.WithTimeout(context.Background(), 20*time.Second)
+	defer cancel()
+
+	req, err := http.NewRequestWithContext(ctx, http.MethodGet, target, nil)
 	if err != nil {
-		return 0, false, false, err
+		return c01HTTPAnswer{}, err
 	}
 
 	if accept != nil {
 		req.Header.Set("Accept", *accept)
 	}
 
-	resp, err := c01Client.Do(req)
+	if hdr != nil {
+		req.Header.Set("X-C01-To", *hdr)
+	}
+
+	resp, err := c01Transport.RoundTrip(req)
 	if err != nil {
 		// no HTTP response at all (connection dropped): reported as status -1, certainly not a positive answer
-		return -1, false, false, nil //nolint:nilerr
+		return c01HTTPAnswer{status: -1}, nil //nolint:nilerr
 	}
 
 	defer resp.Body.Close()
@@ -796,19 +916,50 @@ func c01HTTP(url string, accept *string) (int, bool, bool, error) {
 		}
 	}
 
-	relayed := resp.Header.Get("X-C01-Upstream") == "1"
-	errBody := !relayed && resp.Header.Get("X-Content-Type-Options") == "nosniff"
+	res := c01HTTPAnswer{status: resp.StatusCode, relayed: resp.Header.Get("X-C01-Upstream") == "1"}
+	res.errBody = !res.relayed && resp.Header.Get("X-Content-Type-Options") == "nosniff"
 
-	return resp.StatusCode, relayed, errBody, nil
+	if vals, ok := resp.Header["Location"]; ok && len(vals) != 0 {
+		res.location = &vals[0]
+	}
+
+	return res, nil
 }
 
-func c01Envoy(svc *c01Services, path string, accept *string) (map[string]any, error) {
+// c01RenderClass: what kind of value an error handler put into the Location header (evidence only, never compared:
+// the value of the header is not C01's subject)
+func c01RenderClass(loc *string) string {
+	switch {
+	case loc == nil:
+		return "none"
+	case *loc == "":
+		return "empty"
+	case strings.TrimSpace(*loc) == "":
+		return "blank"
+	case strings.ContainsAny(strings.TrimSpace(*loc), "\r\n"):
+		return "multi-line"
+	case strings.TrimSpace(*loc) != *loc:
+		return "padded"
+	}
+
+	return "present"
+}
+
+func c01Envoy(svc *c01Services, path string, accept, hdr *string) (map[string]any, error) {
 	ctx, cancel := context.WithTimeout(context.Background(), 20*time.Second)
 	defer cancel()
 
 	var headers map[string]string
+	if accept != nil || hdr != nil {
+		headers = map[string]string{}
+	}
+
 	if accept != nil {
-		headers = map[string]string{"accept": *accept}
+		headers["accept"] = *accept
+	}
+
+	if hdr != nil {
+		headers["x-c01-to"] = *hdr
 	}
 
 	resp, err := svc.envoy.Check(ctx, &envoy_auth.CheckRequest{
@@ -826,10 +977,17 @@ func c01Envoy(svc *c01Services, path string, accept *string) (map[string]any, er
 			return nil, err
 		}
 
-		return map[string]any{"rpcerr": int(st.Code())}, nil
+		return map[string]any{"rpcerr": int(st.Code()), "_loc": "none"}, nil
 	}
 
-	out := map[string]any{"code": int(resp.GetStatus().GetCode())}
+	out := map[string]any{"code": int(resp.GetStatus().GetCode()), "_loc": "none"}
+
+	for _, h := range resp.GetDeniedResponse().GetHeaders() {
+		if strings.EqualFold(h.GetHeader().GetKey(), "Location") {
+			v := h.GetHeader().GetValue()
+			out["_loc"] = c01RenderClass(&v)
+		}
+	}
 
 	switch {
 	case resp.GetOkResponse() != nil:
